@@ -100,7 +100,9 @@ type seqWorld struct {
 	st      *Stats
 	mu      sync.Mutex
 	objects map[string]*storedObj
-	locks   map[[32]byte][]byte
+	// earlier contents of every key, oldest first (the adversary of C08 may put back anything that was ever stored)
+	versions map[string][]*storedObj
+	locks    map[[32]byte][]byte
 	clock   int64
 	insts   []*seqInst
 	entries []*seqEntry
@@ -243,6 +245,12 @@ func (b *instBackend) Upload(ctx context.Context, key string, data []byte, opts 
 		if opts != nil {
 			o.opts = *opts
 		}
+		if exists && !bytes.Equal(old.data, data) {
+			if w.versions == nil {
+				w.versions = map[string][]*storedObj{}
+			}
+			w.versions[key] = append(w.versions[key], old)
+		}
 		w.objects[key] = o
 	}
 	w.mu.Unlock()
@@ -278,9 +286,13 @@ func (b *instBackend) Discard(ctx context.Context, key string) error {
 	out, op := w.sched.yield(ctx, "discard", key)
 	defer w.sched.done(op)
 	w.mu.Lock()
-	_, ok := w.objects[key]
+	gone, ok := w.objects[key]
 	res := out.String()
 	if (out == outOK || out == outErrA) && ok {
+		if w.versions == nil {
+			w.versions = map[string][]*storedObj{}
+		}
+		w.versions[key] = append(w.versions[key], gone)
 		delete(w.objects, key)
 	} else if out == outOK && !ok {
 		res = "nf"
